@@ -4,7 +4,7 @@
     EscapeTop.v (get_matches_with / do_parse / parse_top). *)
 From ClapModel Require Import Base.Bytes Base.Machine Base.Utf8 Lex.OsStrExtModel.
 From ClapModel Require Import Parse.Cmd Parse.Build Parse.Valid Parse.Matcher Parse.Errors Parse.Validator Parse.Parser.
-From ClapModel Require Import ParseProofs.Totality ParseProofs.Dispatch ParseProofs.Escape ParseProofs.EscapeWalk ParseProofs.EscapeStore ParseProofs.EscapeLevel ParseProofs.EscapeChain ParseProofs.EscapeDisplay ParseProofs.EscapeGlobals ParseProofs.EscapeTop ParseProofs.EscapeAny ParseProofs.EscapeDdt.
+From ClapModel Require Import ParseProofs.Totality ParseProofs.Dispatch ParseProofs.Escape ParseProofs.EscapeWalk ParseProofs.EscapeStore ParseProofs.EscapeLevel ParseProofs.EscapeChain ParseProofs.EscapeDisplay ParseProofs.EscapeGlobals ParseProofs.EscapeTop ParseProofs.EscapeAny ParseProofs.EscapeDdt ParseProofs.EscapeHyphen.
 From Coq Require Import ZArith.
 From RecordUpdate Require Import RecordSet.
 Import RecordSetNotations.
@@ -754,3 +754,76 @@ Theorem C05_do_parse_delivered_ddt : forall c0 pre t m,
   delivered_v (top_fuel c0) (build_self c0) t m.
 Proof. exact do_parse_delivered_ddt. Qed.
 Print Assumptions C05_do_parse_delivered_ddt.
+
+(** ** (1) verbatim delivery for levels and trees WITH hyphen-accepting arguments: the conclusions of
+    [C05_level_tail_verbatim] / [C05_gmw_delivered] / [C05_parse_top_delivered_g] with one more case, the
+    documented exception (an argument accepting hyphen values was still being collected at the [--]) *)
+Theorem C05_level_tail_verbatim_h : forall c,
+  lvl c -> lvl_store c -> (forall vaf, possible_subcommand c dashdash vaf = None) ->
+  forall f pre t st0 st',
+  t <> [] -> mt_pending (mt st0) = None ->
+  get_matches_with (S f) c (pre ++ dashdash :: t) st0 = ROk st' ->
+  (consumed_sink c t st0 st' (parse_loop c (pre ++ dashdash :: t) ls0 st0) /\
+   consumed_chain c t st0 st' (parse_loop c (pre ++ dashdash :: t) ls0 st0))
+  \/ (exists n k v st1 r, parse_loop c (pre ++ dashdash :: t) ls0 st0 = ROk (LSub n k v st1 (r ++ dashdash :: t)))
+  \/ (exists tk r st1, parse_loop c (pre ++ dashdash :: t) ls0 st0 = ROk (LExternal tk (r ++ dashdash :: t) st1))
+  \/ hyphen_exception c t t ls0 st0
+       (parse_loop c (pre ++ dashdash :: t) ls0 st0) (parse_loop c (pre ++ dashdash :: t) ls0 st0).
+Proof. exact level_tail_verbatim_h. Qed.
+Print Assumptions C05_level_tail_verbatim_h.
+
+Theorem C05_gmw_delivered_h : forall fuel c pre t st0 st',
+  esc_okh fuel c -> t <> [] -> mt_pending (mt st0) = None -> mt_sub (mt st0) = None ->
+  get_matches_with fuel c (pre ++ dashdash :: t) st0 = ROk st' ->
+  delivered_h fuel c t (into_inner (mt st')).
+Proof. exact gmw_delivered_h. Qed.
+Print Assumptions C05_gmw_delivered_h.
+
+Theorem C05_delivered_h_def : forall f c t m,
+  delivered_h (S f) c t m <->
+  (((forall a, sink_from c 1 a ->
+       ms_sub m = None /\
+       exists e gs early' t', fm_get (a_id a) (ms_args m) = Some e /\ m_raw e = gs ++ [early' ++ t']
+                              /\ m_source e = Some SCmdLine /\ tail_form c a t = Some t')
+    /\ (chainc c = true ->
+        ms_sub m = None /\ exists x pc, chain_filled c (fun y => fm_get y (ms_args m)) pc (x ++ t)))
+   \/ (exists name sc sm, build_subcommand c name = Some sc /\ ms_sub m = Some (c_name sc, sm) /\ delivered_h f sc t sm)
+   \/ (exists name vals sm, ms_sub m = Some (name, sm) /\ ms_sub sm = None /\
+                            fm_get ext_id (ms_args sm) = Some (ext_marg (vals ++ dashdash :: t)))
+   \/ (exists a, In a (c_args c) /\ a_hyphen a = true)).
+Proof. exact (fun f c t m => conj (fun H => H) (fun H => H)). Qed.
+Print Assumptions C05_delivered_h_def.
+
+(** on a tree without hyphen-accepting arguments the fourth case does not occur *)
+Theorem C05_delivered_h_plain : forall f c t m, esc_ok f c -> delivered_h f c t m -> delivered f c t m.
+Proof. exact delivered_h_plain. Qed.
+Print Assumptions C05_delivered_h_plain.
+
+Theorem C05_parse_top_delivered_h : forall c0 bin pre t m,
+  esc_class_hg c0 = true -> is_set s_no_binary_name c0 = false -> c_bin_name c0 <> None -> t <> [] ->
+  parse_top c0 (bin :: pre ++ dashdash :: t) = OOk m ->
+  delivered_h (top_fuel c0) (build_self c0) t m.
+Proof. exact parse_top_delivered_h. Qed.
+Print Assumptions C05_parse_top_delivered_h.
+
+Theorem C05_do_parse_delivered_h : forall c0 pre t m,
+  esc_class_hg c0 = true -> t <> [] ->
+  do_parse c0 (pre ++ dashdash :: t) = OOk m ->
+  delivered_h (top_fuel c0) (build_self c0) t m.
+Proof. exact do_parse_delivered_h. Qed.
+Print Assumptions C05_do_parse_delivered_h.
+
+Theorem C05_esc_class_hg_def : forall c0,
+  esc_class_hg c0 = esc_class_h c0 && pos_freeb (all_globals (build_recursive (top_fuel c0) c0)) (top_fuel c0) (build_self c0).
+Proof. exact (fun c0 => eq_refl). Qed.
+Print Assumptions C05_esc_class_hg_def.
+
+(** ** (2) value terminators: outside every delivery class, and for a reason -- the terminator is compared after
+    the escape too ([Escape.tstep], [TS_term]).  [prog -- a ;] with [p (num_args 1.., value_terminator ";")] is
+    accepted with [p = [a]]: the token [;] of the tail reaches no argument.  Model and implementation agree
+    (corpus/C05/escape-main.r3.cases). *)
+Theorem C05_terminator_tail_dropped_refuted : exists c0 tail tok m,
+  esc_class_h c0 = true /\ In tok tail /\ do_parse c0 (dashdash :: tail) = OOk m /\ ms_sub m = None /\
+  forall y e, fm_get y (ms_args m) = Some e -> ~ In tok (concat (m_raw e)).
+Proof. exact terminator_tail_dropped_refuted. Qed.
+Print Assumptions C05_terminator_tail_dropped_refuted.
